@@ -55,6 +55,7 @@ class SThread:
         self.ident = None
         self.daemon = True
         self.last_line = None
+        self.wait_obj = None
 
     def __repr__(self):
         return "<T%d %s %s%s>" % (self.idx, self.name, self.state, (":" + str(self.what)) if self.state == "blocked" else "")
@@ -379,9 +380,11 @@ class Scheduler:
             self._spin_n = 0
 
     # ---- blocking
-    def block(self, pred, what, timeout=None):
+    def block(self, pred, what, timeout=None, obj=None):
         """block the calling sim thread until pred() holds; returns False on (simulated) timeout"""
         t = self.me()
+        if t is not None:
+            t.wait_obj = obj
         if t is None:
             if pred():
                 return True
@@ -628,7 +631,7 @@ class SimCondition:
         self.waiters.append(w)
         saved = self._lock._release_save()
         try:
-            ok = self.s.block(lambda: w["n"], "cond.wait", timeout)
+            ok = self.s.block(lambda: w["n"], "cond.wait", timeout, obj=self)
             if not ok and w in self.waiters:
                 self.waiters.remove(w)
         finally:
